@@ -157,6 +157,7 @@ func c10E1(r *core.Run) {
 				cookieHdr = append(cookieHdr, own)
 			}
 			// the client's cookies travel in one Cookie field or (as HTTP/2 front ends and some clients do) in several
+			method := "POST"
 			layout := "one-field"
 			writeCookies := func(w *rawhttp.Builder) {
 				switch {
@@ -178,8 +179,12 @@ func c10E1(r *core.Run) {
 				w.Field("Content-Length", fmt.Sprint(len(body))).End()
 				w.WriteString(body)
 			} else {
-				w.Line("GET "+path+" HTTP/1.1").Field("Host", host).Field("X-Tok", tok)
+				method = []string{"GET", "GET", "OPTIONS", "POST", "DELETE", "PUT", "PROPFIND"}[(h+st)%7]
+				w.Line(method+" "+path+" HTTP/1.1").Field("Host", host).Field("X-Tok", tok)
 				writeCookies(&w)
+				if method == "POST" || method == "PUT" {
+					w.Field("Content-Length", "0")
+				}
 				w.End()
 			}
 			px.Enqueue(tok, w.Bytes(), "")
@@ -189,7 +194,7 @@ func c10E1(r *core.Run) {
 			if shim {
 				kind = "shim-open"
 			}
-			r.Case(fmt.Sprintf("e1|%s|path=%s|own=%v|sets=%d|has-session=%v|cookies=%s", kind, path, own != "", len(set), sid != "", layout))
+			r.Case(fmt.Sprintf("e1|%s %s|path=%s|own=%v|sets=%d|has-session=%v|cookies=%s", kind, method, path, own != "", len(set), sid != "", layout))
 			if !ok || up.Resp == nil {
 				r.Inconclusive(fmt.Sprintf("C10 end-to-end step %s: no response uploaded", tok))
 				break
